@@ -54,24 +54,6 @@ theorem own_moveFile (τ : Nat) (n : FName) (c : List Nat) : ∀ op ∈ moveFile
   rcases hop with (((rfl | rfl) | ⟨b, _, rfl | rfl⟩) | rfl | rfl | rfl | rfl) <;>
     (intro q hq; simp only [touch, List.mem_cons, List.not_mem_nil, or_false] at hq; try subst hq; try (right; cases n <;> simp [tpaths]))
 
-theorem own_moveDir (order : List DirEnt) (τ : Nat) (content : FName → List Nat) :
-    ∀ op ∈ ops (moveDirCalls order τ content), Own τ op := by
-  intro op hop
-  rw [ops_moveDir] at hop
-  simp only [List.mem_append, List.mem_cons, List.not_mem_nil, or_false, List.mem_flatMap] at hop
-  rcases hop with ((rfl | ⟨e, _, he⟩) | rfl | rfl)
-  · intro q hq; simp [touch] at hq
-  · cases e with
-    | f n =>
-      simp only [entryOps, List.mem_cons] at he
-      rcases he with rfl | he
-      · intro q hq; simp [touch] at hq
-      · exact own_moveFile τ n _ op he
-    | dot => simp [entryOps] at he; subst he; intro q hq; simp [touch] at hq
-    | dotdot => simp [entryOps] at he; subst he; intro q hq; simp [touch] at hq
-  · intro q hq; simp [touch] at hq
-  · intro q hq; simp [touch] at hq
-
 theorem own_thread (ser : Meta → List Nat) (p : Prog) (t : ThreadProg) :
     ∀ op ∈ ops (threadCalls ser p t), Own t.tid op := by
   intro op hop
@@ -104,8 +86,9 @@ theorem own_thread (ser : Meta → List Nat) (p : Prog) (t : ThreadProg) :
       · unfold relocCalls at h
         split at h
         · simp only [List.map_append, List.mem_append] at h
-          rcases h with h | h
-          · exact own_moveDir _ _ _ op h
+          rcases h with (h | h) | h
+          · rw [← ops, ops_moveFile] at h; exact own_moveFile _ _ _ op h
+          · rw [← ops, ops_moveFile] at h; exact own_moveFile _ _ _ op h
           · simp at h; subst h; exact own_of_foreign_all (by simp [touch, Path.isLeaf])
         · simp at h
     · simp at h
@@ -180,6 +163,30 @@ theorem view_at_crash (ser : Meta → List Nat) (p : Prog) (t : ThreadProg) (ht 
   refine ⟨k - A.length, ?_⟩
   have : ops ((calls ser p).take k) = (ops (calls ser p)).take k := by simp [ops, List.map_take]
   rw [viewOf_run, viewOf_init, this, hsplit, vrun_take_split _ _ _ _ _ hA hB]
+
+/-- The same, together with the position of the `i`-th call when that call is
+    one of the thread's own. -/
+theorem view_and_op_at (ser : Meta → List Nat) (p : Prog) (t : ThreadProg) (ht : t ∈ p.threads)
+    (hnd : (p.threads.map (·.tid)).Nodup) (i : Nat) (op : FOp) (hop : (ops (calls ser p))[i]? = some op)
+    (hnf : ¬ Foreign t.tid op) :
+    ∃ k', viewOf (run p.init (ops ((calls ser p).take i))) t.tid
+        = vrun t.tid View.empty ((ops (threadCalls ser p t)).take k') ∧
+      (ops (threadCalls ser p t))[k']? = some op := by
+  obtain ⟨A, B, hsplit, hA, hB⟩ := calls_split ser p t ht hnd
+  refine ⟨i - A.length, ?_, ?_⟩
+  · have : ops ((calls ser p).take i) = (ops (calls ser p)).take i := by simp [ops, List.map_take]
+    rw [viewOf_run, viewOf_init, this, hsplit, vrun_take_split _ _ _ _ _ hA hB]
+  · rw [hsplit] at hop
+    by_cases h1 : i < A.length
+    · exfalso
+      rw [List.append_assoc, List.getElem?_append_left h1] at hop
+      exact hnf (hA op (List.mem_of_getElem? hop))
+    · rw [List.append_assoc, List.getElem?_append_right (Nat.le_of_not_lt h1)] at hop
+      by_cases h2 : i - A.length < (ops (threadCalls ser p t)).length
+      · rwa [List.getElem?_append_left h2] at hop
+      · exfalso
+        rw [List.getElem?_append_right (Nat.le_of_not_lt h2)] at hop
+        exact hnf (hB op (List.mem_of_getElem? hop))
 
 /-- Entries of a tid that is not a thread of the program never exist. -/
 theorem view_of_stranger (ser : Meta → List Nat) (p : Prog) (τ : Nat) (h : ∀ t ∈ p.threads, τ ≠ t.tid) (k : Nat) :
